@@ -557,6 +557,11 @@ func (f *fx) libraryCall(ct *callTarget, args []Val, pos token.Pos) Val {
 		k := fmt.Sprintf("E:ret:%s:%d", ct.key, i)
 		f.regKey(k, r.T.Sort)
 		f.set(f.cur, k, r.T)
+		if n := f.siteOrdinal(ct.key, pos); n >= 0 {
+			sk := fmt.Sprintf("E:sret:%s#%d:%d", ct.key, n, i)
+			f.regKey(sk, r.T.Sort)
+			f.set(f.cur, sk, r.T)
+		}
 	}
 	return f.packResults(rs)
 }
@@ -983,6 +988,12 @@ func (f *fx) contractCall(ct *callTarget, args []Val, pos token.Pos) Val {
 		k := fmt.Sprintf("E:ret:%s:%d", ct.key, i)
 		f.regKey(k, r.T.Sort)
 		f.set(f.cur, k, r.T)
+		if n := f.siteOrdinal(ct.key, pos); n >= 0 {
+			// siteret("key", site, i): result of the last call made at that static call site
+			sk := fmt.Sprintf("E:sret:%s#%d:%d", ct.key, n, i)
+			f.regKey(sk, r.T.Sort)
+			f.set(f.cur, sk, r.T)
+		}
 	}
 	eenv := f.callEnv(ct, args, pre, post, rs)
 	for _, en := range c.Ensures {
